@@ -193,6 +193,9 @@ def gen_tls_conn(R, cid, cfg, used, pair=None, **epkw):
         side = "s" if ver == T.TLS13 else "c"
         if recs[0]["d"] == side and not conn.get("resume"):
             conn["early_data_side"] = side
+    HRR = R.fork("hrr")
+    if ver == T.TLS13 and HRR.chance(cfg.get("hrr_pct", 0)):
+        conn["hrr"] = {"ccs_s": HRR.chance(60), "ccs_c": HRR.chance(60)}
     HR = R.fork("helloreq")
     if ver != T.TLS13 and n >= 1 and HR.chance(cfg.get("hello_request_pct", 8)):
         conn["hello_req"] = [HR.range(0, n)]
@@ -286,6 +289,8 @@ def gen_net_acts(R, nseg, cfg, protect_first=False):
                     acts.append([i, "lost_before"])
                 elif kind == "dup":
                     acts.append([i, "dup", R.range(0, 4)])
+                elif kind in ("dup_merge", "dup_half"):
+                    acts.append([i, kind, R.range(0, 4)])
                 elif kind == "dup_rto":
                     acts.append([i, "dup_rto"])
                 elif kind == "dup_late":
